@@ -30,13 +30,14 @@ DETERMINISTIC = ["Constant", "Mean", "Sum", "UPGrad", "DualProj", "TrimmedMean",
 
 
 def shards(tier, seed):
-    return split_shards("history", N[tier], 16 if tier == "quick" else 32) + split_shards("shared_grad_buffer", 96 if tier == "quick" else 30000, 2 if tier == "quick" else 8)
+    return split_shards("history", N[tier], 16 if tier == "quick" else 32) + split_shards("shared_grad_buffer", 96 if tier == "quick" else 30000, 2 if tier == "quick" else 8) \
+        + split_shards("reduced_precision", 120 if tier == "quick" else 20000, 2 if tier == "quick" else 8)
 
 
 def requirements(tier):
     return {"steps_checked": 800, "shadow_bitwise_checked": 1000, "task_param_checked": 250, "alias_checked": 300, "w_grad_recreated_while_caller_holds_the_previous_one": 25,
             "values_unchanged_checked": 400, "repeat_bitwise": 100, "w_create_then_accumulate": 100, "w_accumulate_onto_edited": 80,
-            "w_none_after_non_none": 30, "w_mtl_and_bw_on_common_leaf": 60, "w_autograd_interleaved": 80, "w_fresh_created": 300, "w_non_contiguous_parameter": 50, "w_non_contiguous_grad_assigned": 10, "w_two_losses_with_equal_values": 4, "shared_grad_buffer_checked": 60}
+            "w_none_after_non_none": 30, "w_mtl_and_bw_on_common_leaf": 60, "w_autograd_interleaved": 80, "w_fresh_created": 300, "w_non_contiguous_parameter": 50, "w_non_contiguous_grad_assigned": 10, "w_two_losses_with_equal_values": 4, "shared_grad_buffer_checked": 60, "reduced_precision_checked": 100, "w_reduced_precision_update_exceeds_tolerance": 40, "w_grad_is_a_view_of_a_flat_buffer": 15}
 
 
 def gen_agg(rng, m):
@@ -531,8 +532,94 @@ def check_shared_buffer(case, ctx):
     ctx.sample({"scenario": "one .grad buffer shared by several requested tensors", "tied_tensors": nt, "shape": case["L"][0]["shape"], "calls": case["calls"]})
 
 
+def gen_reduced_precision(rng, i):
+    """Parameters kept in bfloat16 / float16 (mixed-precision training) that already have a .grad, held by the caller (an optimizer,
+    or a flat bucket of which .grad is a view): the update must arrive IN that tensor."""
+    k, d = int(rng.integers(2, 5)), int(rng.integers(2, 6))
+    return {"reduced_precision": True, "dtype": ["bfloat16", "float16"][int(rng.integers(2))], "k": k, "d": d, "entry": ["backward", "mtl"][int(rng.integers(2))],
+            "agg": ["Mean", "Sum", "Constant"][int(rng.integers(3))], "calls": int(rng.integers(1, 4)), "flat_bucket": bool(rng.random() < 0.4),
+            "gain": float(np.round(rng.uniform(8, 24), 2)), "vseed": int(rng.integers(1 << 30)), "chunk": [None, 1, 2][int(rng.integers(3))]}
+
+
+def check_reduced_precision(case, ctx):
+    from torchjd import backward, mtl_backward
+    dt = {"bfloat16": torch.bfloat16, "float16": torch.float16}[case["dtype"]]
+    k, d, gain = case["k"], case["d"], case["gain"]
+    g = np.random.default_rng(case["vseed"])
+    W0, b0, x0, h0, start0 = g.uniform(-1, 1, (k, d)), g.uniform(-1, 1, k), g.uniform(0.5, 1.5, d) * g.choice([-1, 1], d), g.uniform(0.5, 1.5, (k, k)), g.standard_normal((k, d))
+    wts = [float(v) for v in np.round(g.uniform(0.5, 1.5, size=k), 2)]
+
+    def world(dtype):
+        W = torch.tensor(W0).to(dtype).requires_grad_(True)
+        b = torch.tensor(b0).to(dtype).requires_grad_(True)
+        H = [torch.tensor(h0[i]).to(dtype).requires_grad_(True) for i in range(k)]
+        f = torch.tanh(W @ torch.tensor(x0).to(dtype) + b)
+        losses = [gain * (f * H[i]).sum() for i in range(k)]
+        return W, b, H, f, losses
+
+    def agg(dtype):
+        return aggs.make({"name": "Constant", "weights": wts} if case["agg"] == "Constant" else {"name": case["agg"]}, dtype)
+
+    coef = {"Mean": [1.0 / k] * k, "Sum": [1.0] * k, "Constant": wts}[case["agg"]]
+    # reference update of W in float32 on values already rounded to the reduced dtype (plain autograd)
+    W, b, H, f, losses = world(dt)
+    Wr = W.detach().float().requires_grad_(True)
+    fr = torch.tanh(Wr @ torch.tensor(x0).to(dt).float() + b.detach().float())
+    tot = sum(c * gain * (fr * H[i].detach().float()).sum() for i, c in enumerate(coef))
+    U = torch.autograd.grad(tot, Wr)[0].double()
+    flat = torch.zeros(k * d + 3, dtype=dt)
+    held = flat[1:1 + k * d].view(k, d) if case["flat_bucket"] else torch.empty(k, d, dtype=dt)
+    held.copy_(torch.tensor(start0).to(dt))
+    start = held.detach().double().clone()
+    W.grad = held
+    eps = float(torch.finfo(dt).eps)
+    vio = None
+    for c in range(case["calls"]):
+        if c > 0:
+            W2, b, H, f, losses = world(dt)
+            W2.grad = W.grad
+            W = W2
+        try:
+            if case["entry"] == "backward":
+                backward(losses, agg(dt), inputs=[W], parallel_chunk_size=case["chunk"])
+            else:
+                mtl_backward(losses, features=f, aggregator=agg(dt), tasks_params=[[H[i]] for i in range(k)], shared_params=[W, b], parallel_chunk_size=case["chunk"])
+        except Exception as e:
+            vio = ("call_raised_on_reduced_precision_parameters", {"error": repr(e)[:300]})
+            break
+        exp = start + (c + 1) * U
+        scale = float(start.abs().max() + (c + 1) * U.abs().max()) + 1.0
+        # worst measured error over 16 000 cases: 8.9 (bfloat16) and 11.7 (float16) eps scale (three accumulated calls)
+        tol = (48 if case["dtype"] == "bfloat16" else 96) * eps * scale
+        e_new = float((W.grad.detach().double() - exp).abs().max())
+        e_held = float((held.detach().double() - exp).abs().max())
+        ctx.count("reduced_precision_checked")
+        ctx.maximum(f"reduced_precision_error_over_eps_scale_{case['dtype']}", e_new / (eps * scale))
+        if float(U.abs().max()) > 2 * tol:
+            ctx.count("w_reduced_precision_update_exceeds_tolerance")
+        if not e_new <= tol:
+            vio = ("wrong_grad_on_reduced_precision_parameter", {"call": c + 1, "error": e_new, "tolerance": tol})
+            break
+        if not e_held <= tol:
+            vio = ("update_did_not_arrive_in_the_existing_grad_tensor", {"call": c + 1, "grad_is_the_tensor_held_by_the_caller": W.grad is held,
+                                                                         "error_of_the_held_tensor": e_held, "error_of_the_new_grad": e_new, "tolerance": tol,
+                                                                         "grad_dtype": str(W.grad.dtype)})
+            break
+        if W.grad.dtype != dt:
+            vio = ("grad_dtype_differs_from_parameter_dtype", {"grad_dtype": str(W.grad.dtype)})
+            break
+    if vio:
+        ctx.violation(vio[0], case, vio[1])
+    if case["flat_bucket"]:
+        ctx.count("w_grad_is_a_view_of_a_flat_buffer")
+    ctx.evaluated(fingerprint(case), nontrivial=True)
+    ctx.sample({"scenario": "bfloat16 / float16 parameter with a caller-held .grad", **{k_: v for k_, v in case.items() if k_ != "vseed"}})
+
+
 def run_shard(shard, ctx):
     ml = LEN[ctx.tier]
+    if shard["kind"] == "reduced_precision":
+        return run_cases(ctx, shard_rng(ctx.seed, ID, ctx.shard_index), shard["n"], gen_reduced_precision, check_reduced_precision)
     if shard["kind"] == "shared_grad_buffer":
         run_cases(ctx, shard_rng(ctx.seed, ID, ctx.shard_index), shard["n"], gen_shared_buffer, check_shared_buffer)
     else:
@@ -540,4 +627,6 @@ def run_shard(shard, ctx):
 
 
 def replay(case, ctx):
+    if case.get("reduced_precision"):
+        return check_reduced_precision(case, ctx)
     (check_shared_buffer if case.get("shared_buffer") else check_case)(case, ctx)
